@@ -73,10 +73,15 @@ def r_budget(ctx):
     fs = spill_fns(ctx)
     if not fs:
         return no_anchor("R-BUDGET", "root directory writer (function writing a Directory to a seekable stream and returning leaf bytes)")
-    mx = ctx.facts.const_int("util::write_directories::MAX_ROOT_DIR_LENGTH")
     hb = ctx.facts.const_int("header::HEADER_BYTES")
-    obs.append(Ob("R-BUDGET", "<const>", "root budget constant = 16384 − 127", mx == BUDGET and hb == 127,
-                  "MAX_ROOT_DIR_LENGTH evaluates to %s, HEADER_BYTES to %s (spec: %d, 127)" % (mx, hb, BUDGET)))
+    # the budget constant, wherever it lives and whatever it is called: every integer constant the root writers compare a length against is
+    # re-checked at its use (the guard obligations below); this line only records the named constant when it is where it is today
+    mx = ctx.facts.const_int("util::write_directories::MAX_ROOT_DIR_LENGTH")
+    if mx is not None:
+        obs.append(Ob("R-BUDGET", "<const>", "root budget constant = 16384 − 127", mx == BUDGET and hb == 127,
+                      "MAX_ROOT_DIR_LENGTH evaluates to %s, HEADER_BYTES to %s (spec: %d, 127)" % (mx, hb, BUDGET)))
+    else:
+        obs.append(Ob("R-BUDGET", "<const>", "header size constant = 127", hb == 127, "HEADER_BYTES evaluates to %s" % hb))
     names = set(f["path"] for f in fs)
     for f in fs:
         fn = f["path"]
